@@ -134,6 +134,15 @@ impl Director for ScriptDirector {
         None
     }
 
+    fn spin_inject(&mut self, _view: &View, _n: u32) -> Option<Vec<u8>> {
+        if let Some(Step::B { .. }) = self.steps.front() {
+            if let Some(Step::B { bytes }) = self.steps.pop_front() {
+                return Some(bytes);
+            }
+        }
+        None
+    }
+
     fn top(&mut self, _view: &View) -> TopDec {
         if let Some(msg) = self.pending_mismatch.take() {
             return TopDec::Mismatch(msg);
@@ -145,6 +154,7 @@ impl Director for ScriptDirector {
             Step::Adv { to } => TopDec::Adv(to),
             Step::B { bytes } => TopDec::Inject(bytes),
             Step::Drop {} => TopDec::DropConn,
+            Step::Setid { id } => TopDec::SetNextId(id),
             step if step.is_call() => TopDec::Call(step),
             other => TopDec::Mismatch(format!(
                 "script expects {other:?} but no call is pending"
@@ -254,6 +264,14 @@ impl Director for ChainDirector {
             self.tail.spin_adv(view, n)
         } else {
             self.script.spin_adv(view, n)
+        }
+    }
+
+    fn spin_inject(&mut self, view: &View, n: u32) -> Option<Vec<u8>> {
+        if self.in_tail {
+            self.tail.spin_inject(view, n)
+        } else {
+            self.script.spin_inject(view, n)
         }
     }
 }
